@@ -186,6 +186,349 @@ def h_table(X, K):
         X.check(got == exp, f"C01/table/framing-differs/{exp[0]}", f"{kind} {version} {method} {status} {fields}: mitmproxy {got} vs reference {exp}")
 
 
+# ------------------------------------------------------------------------------------------
+# end-to-end differential through the real HttpLayer (DESIGN "A-obligation 2")
+#
+# Every varying element (header lines, method, version, body encoding, chunk split, addon edit,
+# pipelining) is a solver-enumerated selector; the real layer stack runs natively on the realised
+# stream.  Oracle: vf/refs/http1ref.py parses (a) the client input, to know what an RFC 9112 recipient
+# would have read / had to reject, and (b) everything mitmproxy wrote to the peers.
+
+_E2E_OPTS = None
+
+
+def _opts():
+    global _E2E_OPTS
+    if _E2E_OPTS is None:
+        _E2E_OPTS = sansio.make_options(validate_inbound_headers=True)
+    return _E2E_OPTS
+
+
+# raw header lines (no terminating CRLF); "{n}" = length of the body that follows
+REQ_LINES = [
+    b"Content-Length: 3", b"content-length: 3", b"Content-Length: 03", b"Content-Length: +3", b"Content-Length: 3, 3",
+    b"Content-Length: 5", b"Content-Length : 3", b"Content-Length:\r\n 3",
+    b"Transfer-Encoding: chunked", b"Transfer-Encoding: gzip, Chunked", b"Transfer-Encoding: chunked, gzip",
+    b"Transfer-Encoding: identity", b"Transfer-Encoding: xchunked", b"Transfer-Encoding:\r\n chunked",
+    b"X-Other: v", b"X-Fold: a\r\n b", b"X-Cr: a\rTransfer-Encoding: chunked", b"X-Nul: a\x00b",
+    b"Connection: close", b"Expect: 100-continue",
+]
+REQ_LINES_QUICK = [0, 1, 2, 4, 5, 6, 8, 9, 10, 11, 13, 14, 15, 16, 17, 18, 19]
+
+RESP_LINES = [
+    b"Content-Length: 3", b"Content-Length: 03", b"Content-Length: 3, 3", b"Content-Length: 5", b"Content-Length : 3",
+    b"Transfer-Encoding: chunked", b"Transfer-Encoding: gzip, chunked", b"Transfer-Encoding: gzip", b"Transfer-Encoding: chunked, gzip",
+    b"Transfer-Encoding: xchunked", b"X-Other: v", b"X-Fold: a\r\n b", b"X-Cr: a\rContent-Length: 0", b"Connection: close",
+]
+RESP_LINES_QUICK = [0, 2, 3, 4, 5, 6, 7, 9, 10, 11, 12, 13]
+
+
+def _chunked(parts, ext=b"", trailer=b"", eol=b"\r\n"):
+    return b"".join(b"%x%s%s%s%s" % (len(p), ext, eol, p, eol) for p in parts) + b"0" + eol + trailer + eol
+
+
+def _body_bytes(X, tier):
+    """bytes following the head, chosen independently of the header fields (so that raw bytes after a
+    chunked head, chunked bytes after a Content-Length head etc. are all covered)"""
+    kinds = ["none", "raw3", "chunk1", "chunk-split", "chunk-ext", "chunk-trailer", "chunk-hex", "raw5"]
+    if tier != "quick":
+        kinds += ["chunk-barelf", "chunk-badterm", "chunk-lead0", "chunk3"]
+    k = X.choose("body", kinds)
+    if k == "none":
+        return k, b""
+    if k == "raw3":
+        return k, b"abc"
+    if k == "raw5":
+        return k, b"abcde"
+    if k == "chunk1":
+        return k, _chunked([b"abc"])
+    if k == "chunk-split":
+        i = 1 + X.choose("chunk_cut", 4)  # solver-chosen chunk split of a 5-byte body
+        return k, _chunked([b"abcde"[:i], b"abcde"[i:]])
+    if k == "chunk3":
+        i = 1 + X.choose("chunk_cut", 3)
+        j = i + 1 + X.choose("chunk_cut2", 4 - i)
+        return k, _chunked([b"abcde"[:i], b"abcde"[i:j], b"abcde"[j:]])
+    if k == "chunk-ext":
+        return k, _chunked([b"abc"], ext=b";x=y")
+    if k == "chunk-trailer":
+        return k, _chunked([b"abc"], trailer=b"X-T: 1\r\n")
+    if k == "chunk-hex":
+        return k, _chunked([b"hello world"]).replace(b"b\r\n", b"B\r\n", 1)  # size 0xB: hex vs decimal
+    if k == "chunk-barelf":
+        return k, _chunked([b"abc"], eol=b"\n")
+    if k == "chunk-badterm":
+        return k, b"3\r\nabcXY0\r\n\r\n"
+    if k == "chunk-lead0":
+        return k, b"003\r\nabc\r\n0\r\n\r\n"
+    raise AssertionError(k)
+
+
+def _errcat(err):
+    """stable category of a reference-parser verdict (used in violation keys)"""
+    if err is None:
+        return "ok"
+    if err == "incomplete":
+        return "incomplete"
+    for pat, cat in (("CR/LF/NUL", "ctl-in-line"), ("obs-fold", "obs-fold"), ("bare LF", "bare-lf"), ("framing: ", "framing"),
+                     ("bad field line", "bad-field-line"), ("bad request line", "bad-request-line"), ("bad status line", "bad-status-line"),
+                     ("chunk", "bad-chunk")):
+        if pat in err:
+            return cat + (":" + err.split("framing: ")[1] if cat == "framing" else "")
+    return "other"
+
+
+def _strip(v):
+    return v.strip(b" \t")
+
+
+def _same_fields(parsed, recorded):
+    return [(n, _strip(v)) for n, v in parsed] == [(bytes(n), _strip(bytes(v))) for n, v in recorded]
+
+
+class _Run:
+    """one exchange through a fresh HttpLayer(regular); the harness supplies the hook callback"""
+
+    def __init__(self, on_hook):
+        from mitmproxy.proxy.layers import http as mhttp
+
+        self.ctx = sansio.make_context(_opts())
+        self.layer = mhttp.HttpLayer(self.ctx, mhttp.HTTPMode.regular)
+        self.d = sansio.Driver(self.layer, self.ctx)
+        self.d.on_hook = on_hook
+        self.d.start()
+
+    def server_bytes(self):
+        return [(s, self.d.sent_to(s)) for s in self.d.opened]
+
+
+def _req_snapshot(f):
+    r = f.request
+    return {"flow": f, "method": bytes(r.data.method), "path": bytes(r.data.path), "authority": bytes(r.data.authority),
+            "scheme": bytes(r.data.scheme), "fields": tuple(r.headers.fields), "body": r.raw_content}
+
+
+def _resp_snapshot(f):
+    r = f.response
+    return {"flow": f, "status": r.status_code, "fields": tuple(r.headers.fields), "body": r.raw_content,
+            "method": bytes(f.request.data.method)}
+
+
+REQ_EDITS = ["none", "content", "add-header", "delete-cl", "raw-content"]
+RESP_EDITS = ["none", "content", "add-header", "delete-cl", "delete-te"]
+
+
+def _apply_edit(msg, edit):
+    if edit == "content":
+        msg.content = b"edited-body!"  # documented way to replace a body: different length than any menu body
+    elif edit == "raw-content":
+        msg.raw_content = b"edited-body!"
+    elif edit == "add-header":
+        msg.headers.add("X-Added", "1")
+    elif edit == "delete-cl":
+        msg.headers.pop("content-length", None)
+    elif edit == "delete-te":
+        msg.headers.pop("transfer-encoding", None)
+
+
+OK200 = b"HTTP/1.1 200 OK\r\nContent-Length: 2\r\n\r\nok"
+MARK = b"GET http://example.com/marker HTTP/1.1\r\nHost: example.com\r\n\r\n"
+
+
+def h_e2e_request(X, K, tier):
+    """client stream = solver-built request [+ pipelined marker request]; server answers every forwarded
+    request with a fixed 200.  Everything written to the server must parse (reference) to exactly the
+    flows seen in the `request` hook, after addon edits."""
+    menu = REQ_LINES if tier != "quick" else [REQ_LINES[i] for i in REQ_LINES_QUICK]
+    method = X.choose("method", [b"POST", b"GET"])
+    version = X.choose("version", [b"HTTP/1.1", b"HTTP/1.0"])
+    lines = [b"Host: example.com"]
+    for _ in range(X.choose("nfields", K + 1)):
+        lines.append(X.choose("line", menu))
+    bkind, body = _body_bytes(X, tier)
+    head = method + b" http://example.com/first " + version + b"\r\n" + b"".join(l + b"\r\n" for l in lines) + b"\r\n"
+    pipelined = X.boolean("pipelined")
+    stream = head + body + (MARK if pipelined else b"")
+
+    # what an RFC 9112 recipient reads from the same input
+    ref_in, ref_left, ref_err = http1ref.parse_stream(stream, "request", eof=True)
+    ref_cat = _errcat(ref_err)
+
+    seen = []  # snapshots taken in the `request` hook, after the addon edit
+    pre = []  # ... before the edit (what mitmproxy read from the wire)
+    edits = []
+
+    def on_hook(hook):
+        if hook.name == "request":
+            f = hook.args()[0]
+            pre.append(_req_snapshot(f))
+            e = X.choose("edit", REQ_EDITS) if f.request.data.path == b"/first" else "none"
+            _apply_edit(f.request, e)
+            edits.append(e)
+            seen.append(_req_snapshot(f))
+        return True
+
+    run = _Run(on_hook)
+    d = run.d
+    answered = 0
+    try:
+        d.data(run.ctx.client, stream)
+        while answered < len(seen):
+            srv = seen[answered]["flow"].server_conn
+            answered += 1
+            if srv.connected:
+                d.data(srv, OK200)
+        d.close(run.ctx.client)
+        for s in list(d.opened):
+            d.close(s)
+    except NotImplementedError as e:
+        X.reach("crash-notimplemented")
+        X.fail(f"C01/e2e/request/layer-raises-NotImplementedError/{bkind}", f"client bytes {stream!r} make the HTTP layer raise: {e}")
+    X.reach("ran")
+    etag = "" if all(e == "none" for e in edits) else "/edit=" + "+".join(e for e in edits if e != "none")
+
+    # (1) ambiguous framing must be rejected, and nothing after the rejected message may be processed
+    first_rejected = ref_cat.startswith("framing") and len(ref_in) == 0
+    if first_rejected:
+        X.reach("ref-rejects")
+        X.check(not seen, f"C01/e2e/request/ambiguous-forwarded/{ref_cat}", f"reference rejects {head!r} ({ref_err}) but mitmproxy processed {[(s['method'], s['path']) for s in seen]}")
+    # (2) where the reference reads the input successfully, mitmproxy (possibly stricter = a shorter prefix)
+    #     must have read the same messages
+    if ref_err is None:
+        X.check(len(pre) <= len(ref_in), "C01/e2e/request/input-desync/extra-message", f"{stream!r}: mitmproxy read {len(pre)} requests, reference {len(ref_in)}")
+        for got, exp in zip(pre, ref_in):
+            X.check(got["method"] == exp.method and got["body"] == exp.body and _same_fields(exp.fields, got["fields"]),
+                    "C01/e2e/request/input-desync/message-differs", f"{stream!r}: mitmproxy read {got['method']!r} {got['fields']} body={got['body']!r}; reference {exp!r}")
+        if len(pre) == len(ref_in) and pre:
+            X.reach("input-agrees")
+
+    # (3) the property: bytes forwarded upstream parse to exactly the recorded flows
+    out = []
+    for s, data in run.server_bytes():
+        msgs, left, err = http1ref.parse_stream(data, "request", eof=True)
+        X.check(err is None, f"C01/e2e/request/forwarded-unparseable/{_errcat(err)}{etag}",
+                f"client sent {stream!r}; forwarded bytes {data!r} do not parse: {err}; parsed so far {msgs}, recorded flows {[(s_['method'], s_['path'], s_['fields'], s_['body']) for s_ in seen]}")
+        out += msgs
+    X.check(len(out) == len(seen), f"C01/e2e/request/count{etag}",
+            f"client sent {stream!r}; upstream parser reads {len(out)} requests {out}, mitmproxy recorded {len(seen)}: {[(s_['method'], s_['path'], s_['fields'], s_['body']) for s_ in seen]}")
+    for m, s in zip(out, seen):
+        tgt_ok = m.target == s["path"] or (s["authority"] and m.target == s["scheme"] + b"://" + s["authority"] + s["path"])
+        X.check(m.method == s["method"] and tgt_ok, f"C01/e2e/request/line{etag}", f"forwarded {m.method!r} {m.target!r} vs recorded {s['method']!r} {s['path']!r}")
+        X.check(_same_fields(m.fields, s["fields"]), f"C01/e2e/request/fields{etag}", f"forwarded fields {m.fields} vs recorded {list(s['fields'])}")
+        X.check(m.body == (s["body"] or b""), f"C01/e2e/request/body{etag}", f"forwarded body {m.body!r} (framing {m.framing}) vs recorded {s['body']!r}; forwarded bytes {run.server_bytes()[0][1]!r}")
+        X.check(not m.trailers, f"C01/e2e/request/trailers{etag}", f"forwarded trailers {m.trailers}")
+    if seen:
+        X.reach("forwarded")
+    if len(seen) == 2:
+        X.reach("forwarded-pipelined")
+    if etag and seen:
+        X.reach("edited")
+    # (4) what the client got back is well-framed too (error pages included)
+    cm, cleft, cerr = http1ref.parse_stream(d.sent_to(run.ctx.client), "response", [s["method"] for s in seen] + [b"GET"] * 2, eof=True)
+    X.check(cerr is None, f"C01/e2e/request/client-side-unparseable/{_errcat(cerr)}", f"client sent {stream!r}; bytes returned to the client {d.sent_to(run.ctx.client)!r}: {cerr}")
+    if not seen:
+        X.reach("rejected")
+
+
+def h_e2e_response(X, K, tier):
+    """one or two fixed requests; the server's reply to the first is solver-built.  Everything relayed to
+    the client must parse (reference, in the context of the request methods) to exactly the responses
+    seen in the `response` hook after addon edits; ambiguous responses must not be relayed."""
+    menu = RESP_LINES if tier != "quick" else [RESP_LINES[i] for i in RESP_LINES_QUICK]
+    method = X.choose("method", [b"GET", b"HEAD"])
+    version = X.choose("version", [b"HTTP/1.1", b"HTTP/1.0"])
+    status = X.choose("status", [200, 204, 304, 100])
+    lines = []
+    for _ in range(X.choose("nfields", K + 1)):
+        lines.append(X.choose("line", menu))
+    bkind, body = _body_bytes(X, tier)
+    then_close = X.boolean("server_closes")  # needed to terminate read-until-close bodies
+    head = version + b" %d Status\r\n" % status + b"".join(l + b"\r\n" for l in lines) + b"\r\n"
+    resp1 = head + body
+    pipelined = X.boolean("pipelined")
+    req1 = method + b" http://example.com/first HTTP/1.1\r\nHost: example.com\r\n\r\n"
+    stream = req1 + (MARK if pipelined else b"")
+
+    ref_in, _, ref_err = http1ref.parse_stream(resp1, "response", [method], eof=then_close)
+    ref_cat = _errcat(ref_err)
+
+    reqs, seen, pre, edits, errors = [], [], [], [], []
+
+    def on_hook(hook):
+        f = hook.args()[0]
+        if hook.name == "request":
+            reqs.append(f)
+        elif hook.name == "response":
+            pre.append(_resp_snapshot(f))
+            e = X.choose("edit", RESP_EDITS) if f.request.data.path == b"/first" else "none"
+            _apply_edit(f.response, e)
+            edits.append(e)
+            seen.append(_resp_snapshot(f))
+        elif hook.name == "error":
+            errors.append(f)
+        return True
+
+    run = _Run(on_hook)
+    d = run.d
+    answered = 0
+    try:
+        d.data(run.ctx.client, stream)
+        while answered < len(reqs):
+            f = reqs[answered]
+            srv = f.server_conn
+            first = f.request.data.path == b"/first"
+            answered += 1
+            if srv.connected:
+                d.data(srv, resp1 if first else OK200)
+                if first and then_close:
+                    d.close(srv)
+        d.close(run.ctx.client)
+        for s in list(d.opened):
+            d.close(s)
+    except NotImplementedError as e:
+        X.reach("crash-notimplemented")
+        X.fail(f"C01/e2e/response/layer-raises-NotImplementedError/{bkind}", f"server bytes {resp1!r} make the HTTP layer raise: {e}")
+    X.reach("ran")
+    etag = "" if all(e == "none" for e in edits) else "/edit=" + "+".join(e for e in edits if e != "none")
+    first_seen = [s for s in seen if s["flow"].request.data.path == b"/first"]
+
+    if ref_cat.startswith("framing") and not ref_in:
+        X.reach("ref-rejects")
+        X.check(not first_seen, f"C01/e2e/response/ambiguous-relayed/{ref_cat}", f"reference rejects {head!r} ({ref_err}) but mitmproxy relayed it")
+    if ref_err is None and first_seen and ref_in and not (100 <= status <= 199):
+        got, exp = [p for p in pre if p["flow"] is first_seen[0]["flow"]][0], ref_in[0]
+        X.check(got["status"] == exp.status and (got["body"] or b"") == exp.body and _same_fields(exp.fields, got["fields"]),
+                "C01/e2e/response/input-desync/message-differs", f"server sent {resp1!r} (to {method!r}): mitmproxy read {got['status']} {got['fields']} body={got['body']!r}; reference {exp!r}")
+        X.reach("input-agrees")
+
+    raw = d.sent_to(run.ctx.client)
+    cm, cleft, cerr = http1ref.parse_stream(raw, "response", [f.request.data.method for f in reqs] + [b"GET"] * 2, eof=True)
+    ctx_txt = f"request {method!r}, server sent {resp1!r}{' then closed' if then_close else ''}; relayed to client: {raw!r}"
+    X.check(cerr is None, f"C01/e2e/response/relayed-unparseable/{_errcat(cerr)}{etag}", f"{ctx_txt}: {cerr}; parsed so far {cm}")
+    # mitmproxy-generated error pages (for flows that ended in `error`) are not flow responses
+    relayed = list(cm)
+    if errors and relayed and relayed[-1].status >= 400 and any(n.lower() == b"server" and v.startswith(b"mitmproxy") for n, v in relayed[-1].fields):
+        relayed.pop()
+    X.check(len(relayed) == len(seen), f"C01/e2e/response/count{etag}", f"{ctx_txt}: client parser reads {len(relayed)} responses {relayed}, mitmproxy recorded {[(s['status'], s['fields'], s['body']) for s in seen]}")
+    for m, s in zip(relayed, seen):
+        X.check(m.status == s["status"], f"C01/e2e/response/status{etag}", f"{ctx_txt}: relayed status {m.status} vs recorded {s['status']}")
+        X.check(_same_fields(m.fields, s["fields"]), f"C01/e2e/response/fields{etag}", f"{ctx_txt}: relayed fields {m.fields} vs recorded {list(s['fields'])}")
+        no_body_ctx = s["method"] == b"HEAD" or s["status"] in (204, 304) or 100 <= s["status"] <= 199
+        if not no_body_ctx:  # in a no-body context the recorded body cannot be represented on the wire at all
+            X.check(m.body == (s["body"] or b""), f"C01/e2e/response/body{etag}", f"{ctx_txt}: relayed body {m.body!r} (framing {m.framing}) vs recorded {s['body']!r}")
+        X.check(not m.trailers, f"C01/e2e/response/trailers{etag}", f"relayed trailers {m.trailers}")
+    if first_seen:
+        X.reach("relayed")
+        if method == b"HEAD" or status in (204, 304):
+            X.reach("relayed-nobody-context")
+    if len(seen) == 2:
+        X.reach("relayed-pipelined")
+    if etag and seen:
+        X.reach("edited")
+    if errors:
+        X.reach("rejected")
+
+
 def obligations(tier):
     k = 2 if tier == "quick" else 3
     return [
